@@ -370,3 +370,8 @@ Example documented_names :
   parse_desc [114;101;100;32;35;70;70;49;53;49;53] = Some (1, Some (mkRgb 255 21 21)) /\
   spec_desc [114;101;100;32;35;70;70;49;53;49;53] = MustAccept 1 (Some (mkRgb 255 21 21)).
 Proof. vm_compute. repeat split; reflexivity. Qed.
+
+Theorem desc_grammar s :
+  (forall i c, spec_desc s = MustAccept i c -> parse_desc s = Some (i, c)) /\
+  (spec_desc s = MustReject -> parse_desc s = None).
+Proof. split; [intros i c; exact (spec_accept s i c)|exact (spec_reject s)]. Qed.
